@@ -25,6 +25,8 @@
       Proofs/RtPos.lean; the saved offsets of the written-back fields, Proofs/Saved.lean).  Hypotheses: `CfgOK`
       (executable as `cfgOKb`, evaluated by the check on every real configuration it uses), the property's own
       precondition (buffer ≥ header + context), and the `uint32_t` no-wrap conditions.
+    * **every_store_inside_the_buffer** — the same as a statement about the logged stores themselves: every
+      `store off n` event of every history has `off + n ≤ L`.
     * **no_store_outside_the_buffer_any_sizes** — the same for platforms that install buffers of *different* sizes, for
       histories that start by opening a packet and never disable tracing (Proofs/RtPosB.lean).
   Not proved, because false on the current tree: buffers of different sizes together with disabled tracing (a closing
@@ -168,6 +170,19 @@ theorem no_store_outside_the_buffer (cfg : Cfg) (d : DST) (L A : Nat) (hcfg : Cf
     (rtInit_pinv d L A hcfg.Apos hsmall p hsb)
   exact ⟨h.nh, h.len, h.pkt, h.at_⟩
 
+/-- **the literal statement of C02**: every store the tracer makes — every `store off n` event of the log, i.e. every
+    byte range any serialisation primitive modified (`stores_are_logged_truthfully`) — lies inside the packet buffer
+    (`off + n ≤ L` bytes), along every history; same hypotheses as `no_store_outside_the_buffer`.
+    (`installSer` logs the stores of a pass; each was checked against the buffer length when it was made, the buffer keeps
+    its length, and no pass raised `oob`: Proofs/StoresIn.lean.) -/
+theorem every_store_inside_the_buffer (cfg : Cfg) (d : DST) (L A : Nat) (hcfg : CfgOK A cfg d)
+    (hsmall : 8 * L + A ≤ 2 ^ 32) (p : Plat) (hsb : ∀ x ∈ p.setBufs, x.2 = L)
+    (hhdr : ∀ args ∈ openArgsOf p.openArgs, hdrEndN cfg d args ≤ 8 * L)
+    (ops : List Op) (hops : OpsSmall d L A ops) (off n : Nat) (flag isOpen : Bool)
+    (h : Ev.store off n flag isOpen ∈ (runOps cfg d ops (rtInit L p)).log) : off + n ≤ L :=
+  (runOps_pinv cfg d L A p.openArgs hcfg hsmall hhdr ops hops (rtInit L p)
+    (rtInit_pinv d L A hcfg.Apos hsmall p hsb)).stin _ h
+
 /-- the same with the configuration hypotheses in executable form (what the driver evaluates on real configurations) -/
 theorem no_store_outside_the_buffer_exec (cfg : Cfg) (d : DST) (L A : Nat) (hcfg : cfgOKb A cfg d = true)
     (hsmall : 8 * L + A ≤ 2 ^ 32) (p : Plat) (hsb : ∀ x ∈ p.setBufs, x.2 = L)
@@ -262,6 +277,10 @@ example : GoodBuf c02Cfg c02Dst 8 16 [] 16 ∧ GoodBuf c02Cfg c02Dst 8 16 [] 12 
    ⟨by decide, by intro a ha; simp [openArgsOf] at ha; subst ha; decide +kernel⟩⟩
 example : (runOps c02Cfg c02Dst (.open_ :: [.trace "e" c02Args, .close, .trace "e" c02Args, .trace "e" c02Args, .fin])
     (rtInit 16 { fullAnswers := [false, true], setBufs := [(0, 12)] })).halted = false := by decide +kernel
+/-- the stores of the example run: 18 of them, the highest ends at byte 13 of the 16-byte buffer -/
+example : ((runOps c02Cfg c02Dst c02Ops (rtInit 16 { fullAnswers := [false, true] })).log.filterMap
+    fun e => match e with | .store o n _ _ => some (o + n) | _ => none) =
+    [5, 4, 13, 10, 9, 8, 7, 6, 2, 5, 4, 13, 10, 9, 8, 7, 6, 2] := by decide +kernel
 
 #print axioms stores_are_logged_truthfully
 #print axioms string_store_logged_truthfully
@@ -277,6 +296,7 @@ example : (runOps c02Cfg c02Dst (.open_ :: [.trace "e" c02Args, .close, .trace "
 #print axioms er_size_is_er_serialise_advance
 #print axioms tracing_call_writes_inside_the_packet
 #print axioms no_store_outside_the_buffer
+#print axioms every_store_inside_the_buffer
 #print axioms no_store_outside_the_buffer_exec
 #print axioms no_store_outside_the_buffer_any_sizes
 #print axioms saved_offsets_inside_the_buffer
